@@ -16,7 +16,10 @@ def run(ctx):
     progs = ['main:new2,idle,rbulk1.2,quiet,pfq3,placed4,quiet,del', 'main:new2,rbulk1.2,resize1,quiet,rbulk3.1,resize2,quiet,del', 'main:new2,fq1,bulk2.2,quiet,sched4,quiet,del',
              'main:new3,rbulk1.3,quiet,resize1,fq4,quiet,resize2,rbulk5.2,quiet,del',
              'main:new2,up,rbulk1.2,sync,quiet,del;p2:up,resize2,resize0,resize2',
-             'main:new2,up,resize1,resize2,resize1,sync,quiet,del;p2:up,fq1,fq2,sched3,fq4']
+             'main:new2,up,resize1,resize2,resize1,sync,quiet,del;p2:up,fq1,fq2,sched3,fq4',
+             # placed tasks parked in another group's steal ring while ring-sticky workers spin: the cross-ring steal branch
+             # of tryFindAndExecuteWork (runs the task and accounts for it through the worker's batch)
+             'main:new3,rbulk1.3,quiet,pfq4,pfq5,pfq6,quiet,del', 'main:new3,rbulk1.3,quiet,pfq4,pfq5,pfq6,quiet,rbulk7.3,quiet,placed10,pfq11,quiet,del']
     if thorough:
         progs += ['main:new2,wake0,fq1,bulk2.2,quiet,wake1,rbulk4.2,quiet,del', 'main:new1,rbulk1.1,fq2,quiet,del',
                   'main:new3,up,rbulk1.3,sync,quiet,del;p2:up,resize1,resize3']
@@ -25,7 +28,7 @@ def run(ctx):
     for i, p in enumerate(progs):
         # programs in which a second driver races the resizer get more schedules: the window between a producer's
         # workRemaining_ increment and the resizer's republication steps is narrow
-        tr = pc.validate_prog(ctx, exe, 2, p, WHAT, n * 4 if ';' in p else n, ctx.seed + i, mult=32, pct=(3 if i % 2 else 0))
+        tr = pc.validate_prog(ctx, exe, 2, p, WHAT, n * 4 if (';' in p or 'pfq6' in p) else n, ctx.seed + i, mult=32, pct=(3 if i % 2 else 0))
     ctx.sample({'programs': progs})
     ctx.sample_trace(tr, 12, skip=80)
     ctx.assumptions += pc.ASSUME + ['quiescence = GateQuiet: every submitted task ran and every live worker is blocked in the futex '
